@@ -452,9 +452,21 @@ func registerCrypto(m *Machine) {
 		default:
 			out = m.ufApply(h.alg, h.data, h.size)
 		}
-		pre := a[1]
-		if s, ok := pre.(Slice); ok && len(s.V) > 0 {
-			res := append([]Value{}, s.V...)
+		// Sum(b) is append(b, digest...): when b has spare capacity the digest is written into
+		// b's backing array (and over whatever another slice of that array holds there)
+		if s, ok := a[1].(Slice); ok && (len(s.V) > 0 || cap(s.V) > 0) {
+			n := len(s.V)
+			if n+len(out) <= cap(s.V) {
+				res := s.V[:n+len(out)]
+				for i, t := range out {
+					m.store(&res[n+i], t)
+				}
+				return Slice{V: res}
+			}
+			res := make([]Value, 0, n+len(out))
+			for _, v := range s.V {
+				res = append(res, copyVal(v))
+			}
 			for _, t := range out {
 				res = append(res, t)
 			}
